@@ -101,7 +101,7 @@ impl Check for NftVotes {
                 Step::Delegate { who, to } => { w.set_auth(&[(*who, Inv::new(&id, "delegate", (a(*who), a(*to)).into_val(e)))]); ("delegate", c.try_delegate(&a(*who), &a(*to)).is_ok()) }
             };
             let exp = m.apply(s);
-            if kind != "advance" { st.hit(if got { "tx.ok" } else { "tx.refused" }); if got && touched.last() != Some(&m.now) { touched.push(m.now); } }
+            if kind != "advance" { st.tx(kind, got); if got && touched.last() != Some(&m.now) { touched.push(m.now); } }
             if got != exp { return Err(violation(if got { "refine.must_fail" } else { "live.must_succeed" }, kind, i, format!("{s:?}: real {got} model {exp}"))); }
             let mut sum = 0u128;
             for x in 0..cfg.actors {
